@@ -148,6 +148,26 @@ Section C04.
     = value (scale K kmul r (sel K k 0 a) :: scale K kmul r (sel K k 0 b) :: map (sel K k 0) others) R s.
   Proof. exact (squeeze_gauged_bond_sound K k0 k1 kadd kmul ksub kopp Kring dim). Qed.
 
+  (* loop_simplify / pair_simplify replace a GROUP of tensors by their contraction: sound when no summed label occurs
+     outside the group or is needed later ... *)
+  Theorem C04_group_contract_sound : forall group others S R s,
+    Forall wf group -> Forall wf others ->
+    (forall i, In i S -> ~ In i R) ->
+    (forall i t, In i S -> In t others -> ~ In i (tinds t)) ->
+    value (group ++ others) (S ++ R) s = value (contractN K k0 k1 kadd kmul dim group S :: others) R s.
+  Proof. exact (group_contract_sound K k0 k1 kadd kmul ksub kopp Kring dim). Qed.
+
+  (* ... and the rule compute_contracted_inds implements (keep a label of the group iff it is a declared outer label or
+     occurs outside the group) discharges that side condition for ANY choice of outer labels: an outer label that is
+     also a bond inside the group is never summed *)
+  Theorem C04_group_contract_keeping_outputs_sound : forall group others outs R s,
+    Forall wf group -> Forall wf others ->
+    (forall i, In i (group_summed K group others outs) -> ~ In i R) ->
+    value (group ++ others) (group_summed K group others outs ++ R) s
+    = value (contractN K k0 k1 kadd kmul dim group (group_summed K group others outs) :: others) R s
+    /\ forall o, In o outs -> ~ In o (group_summed K group others outs).
+  Proof. exact (group_contract_keeping_outputs_sound K k0 k1 kadd kmul ksub kopp Kring dim). Qed.
+
   (* the order of summation is irrelevant (any permutation) *)
   Theorem C04_value_summed_perm : forall ts S S' s, Forall wf ts -> Permutation S S' -> value ts S s = value ts S' s.
   Proof. exact (value_summed_perm K k0 k1 kadd kmul ksub kopp Kring dim). Qed.
@@ -187,6 +207,8 @@ Print Assumptions C04_flip_sound.
 Print Assumptions C04_copy_insert_sound.
 Print Assumptions C04_rename_bond_sound.
 Print Assumptions C04_squeeze_gauged_bond_sound.
+Print Assumptions C04_group_contract_sound.
+Print Assumptions C04_group_contract_keeping_outputs_sound.
 Print Assumptions C04_value_summed_perm.
 Print Assumptions C04_rule_sound.
 Print Assumptions C04_rewrite_star_sound.
@@ -273,3 +295,15 @@ Example C04_example :
   /\ find_columns_G [2; 2] [(0,0); (1,0); (0,0); (2,0)]%Z = Some (1, 1)
   /\ find_antidiag_axes_G [2; 2] [(0,0); (1,0); (2,0); (0,0)]%Z = Some (0, 1).
 Proof. vm_compute. repeat split; try reflexivity. discriminate. Qed.
+
+(* non-vacuity for the group rule: a triangle whose bond 1 is declared an outer label: it is kept (labels 0 and 2 are
+   summed) and the contracted group has the same dense tensor over [1]; forgetting the declaration sums label 1 too *)
+Example C04_group_example :
+  let a := arr_tensor [0; 1] [2; 2] [(1,0); (2,0); (3,0); (4,0)]%Z in
+  let b := arr_tensor [1; 2] [2; 2] [(0,1); (1,0); (1,0); (2,0)]%Z in
+  let c := arr_tensor [2; 0] [2; 2] [(1,0); (0,0); (2,0); (1,1)]%Z in
+  let dims := [(0, 2); (1, 2); (2, 2)] in
+  group_summed G [a; b; c] [] [1] = [2; 0]
+  /\ group_summed G [a; b; c] [] [] = [1; 2; 0]
+  /\ dense dims [contractN G g0 g1 gadd gmul (lookup dims) [a; b; c] (group_summed G [a; b; c] [] [1])] [1] = dense dims [a; b; c] [1].
+Proof. vm_compute. repeat split; reflexivity. Qed.
